@@ -169,6 +169,8 @@ PROPS["C09"] = dict(
         H("c09_next_bucket_index_step", "table", Q, 300,
           "start index s in 0..=160, current index c (= s or any index < 160), probe index i: all symbolic",
           "one step of the alternating walk (loop-free); no bound", ["next_bucket_index", "index_is_in_bounds"]),
+        H("c09_closest_setup_b3", "table", Q, 900, "target = local id with symbolic bit s flipped (s in 0..=160, 160 = the local id); probe bucket index symbolic",
+          "3-bucket table built directly (slots empty); no next() call", ["RoutingTable::closest_nodes", "ClosestNodes::new", "precompute_assorted_nodes", "bucket_iterator", "leading_bit_count", "InfoHash::flip_bit", "InfoHash::leading_zeros"]),
         H("c09_walk_length", "table", Q, 1200, "start index s in 0..=160 symbolic",
           "whole walk, 161 iterations unrolled (unwind 163)", ["next_bucket_index"]),
     ],
@@ -192,8 +194,8 @@ PROPS["C19"] = dict(
         H("c19_from_bytes_length_gate", "transaction", Q, 300, "32 symbolic bytes; every prefix length 0..=32", "lengths enumerated", ["TransactionID::from_bytes"]),
         H("c19_mid_block_first", "transaction", Q, 900, "marker 0 (concrete execution), symbolic probe index", "2048-iteration fill", ["generate_mids"]),
         H("c19_mid_block_wrap", "transaction", Q, 900, "marker 2^24 (concrete execution), symbolic probe index", "2048-iteration fill", ["generate_mids"]),
-        H("c19_mid_block_last", "transaction", T, 1500, "marker 2^24 - LEN", "2048-iteration fill", ["generate_mids"]),
-        H("c19_aid_block_last", "transaction", T, 1500, "marker 2^40 - LEN", "2048-iteration fill", ["generate_aids"]),
+        H("c19_mid_block_last", "transaction", Q, 1500, "marker 2^24 - LEN", "2048-iteration fill", ["generate_mids"]),
+        H("c19_aid_block_last", "transaction", Q, 1500, "marker 2^40 - LEN", "2048-iteration fill", ["generate_aids"]),
         H("c19_aid_block_wrap", "transaction", T, 1500, "marker 2^40", "2048-iteration fill", ["generate_aids"]),
         H("c19_mid_generate_in_block", "transaction", T, 3000, "as in_block_at_*, with the position in the block symbolic too", "2 draws", ["MIDGenerator::generate"]),
         H("c19_aid_generate_in_block", "transaction", T, 3000, "as aid in_block_at_*, position symbolic", "2 draws", ["AIDGenerator::generate"]),
@@ -211,5 +213,81 @@ PROPS["C13"] = dict(
         H("c13_nodes_v6_lengths", "compact", Q, 600, "77 symbolic bytes; blob lengths 0,26,37,38,39,75,76,77", "lengths enumerated", ["compact::nodes_v6::deserialize", "decode_socket_addr"]),
         H("c13_values_element_lengths", "compact", Q, 600, "two elements of symbolic bytes; element lengths 0,5,6,7,17,18,19", "lists <= 2 elements", ["compact::values::deserialize", "decode_socket_addr"]),
         H("c13_socket_addr_roundtrip", "compact", Q, 300, "family, 16 address bytes, port: symbolic", "none", ["encode_socket_addr", "decode_socket_addr"]),
+        H("c13_codec_roundtrip_native", "message", Q, 60,
+          "(native only) pseudo-random messages of every kind (t 0..32 bytes, want, explicit/implied port, token 0..23 bytes, 0..5 values of mixed "
+          "families, 0..8 nodes per family, error code/text): real encoder == reference BEP3/5/32 encoder, decode(encode(m)) == m, and decoding "
+          "with rotated key order and unknown keys (v, ip, ro, noseed, scrape, name) at both dictionary levels gives the same message",
+          "sampling - the whole-text codec cannot be brought into the solver (F8/F14/F24/F26); does not decide the property",
+          ["Message::encode", "Message::decode"], role="native-validation"),
     ],
 )
+
+PROPS["C17"] = dict(
+    design_ref="DESIGN.md 4 (C17), 8.5",
+    stubs=[],
+    assumptions=["the closed-form size of a get_peers reply (harness/message.rs reply_len) equals the encoder's output length: "
+                 "validated natively against the real encoder on pseudo-random replies (native sanity runs), not by the solver (F24)",
+                 "the limits are the code's own constants: handler::MAX_VALUES_V4 / MAX_VALUES_V6, 8 nodes per family (take(8)), 20-byte token"],
+    outside=["that handler.rs applies the limits (take(max_values), take(8)) on the reply path - handler.rs is not encodable (F7)",
+             "transaction ids longer than 32 bytes (chosen by the requester)", "queries and errors (bounded by their fixed layout)"],
+    harnesses=[
+        H("c17_get_peers_reply_fits", "message", Q, 300,
+          "number of values 0..=cap of the requester's family (family symbolic), nodes 0..=8, nodes6 0..=8, transaction id length 0..=32: all symbolic",
+          "pure integer arithmetic over the closed form; no loop", ["handler::MAX_VALUES_V4", "handler::MAX_VALUES_V6"]),
+        H("c17_formula_matches_encoder_native", "message", Q, 60,
+          "(native only) pseudo-random replies: values 0..=120 of either family, nodes/nodes6 0..=8, token, transaction id 0..=32 bytes",
+          "sampling - validates the size formula against Message::encode; does not decide the property", ["Message::encode"],
+          role="native-validation"),
+        H("c17_handler_get_peers_reply_fits_native", "handler", Q, 60,
+          "(native only) the real DhtHandler::handle_incoming with a recording socket: requester family, want, transaction id length 0..=32, "
+          "0..=8 contacts per family, 0..=239 stored peers per family pseudo-random",
+          "sampling - evidence that the handler applies the limits the solver-decided check reads from the code; does not decide the property",
+          ["DhtHandler::handle_incoming (get_peers arm)", "DhtHandler::find_closest_nodes", "AnnounceStorage", "Message::encode"],
+          role="native-validation"),
+    ],
+)
+
+PROPS["C14"] = dict(
+    design_ref="DESIGN.md 4 (C14), 8.5",
+    stubs=[STUB_FMT],
+    assumptions=["torrust-serde-bencode allocates exactly the declared length of a byte-string token before reading it and recurses once "
+                 "per nesting level (read from its source, de.rs parse_bytes / deserialize_any); its lexer is context free, so the flat scan of "
+                 "check_structure sees the tokens the decoder will see (reference lexer in the harness mirrors parse())"],
+    outside=["byte strings longer than 12 bytes for the fully symbolic scan (length and nesting bombs are decided separately up to 21 digits / 40 levels)",
+             "the decoder's own behaviour after the pre-check (serde glue between lexer and btdht's visitors), stack use below MAX_DEPTH",
+             "the running node's liveness after injection (F6/F7)"],
+    harnesses=[
+        H("c14_precheck_any_8_bytes", "bencode", Q, 1200, "every byte string of 8 bytes", "unwind 10", ["bencode::check_structure"]),
+        H("c14_length_bomb_1_to_2_digits", "bencode", Q, 900, "<1 or 2 symbolic digits>:xxxx", "boundary: declared length vs 4 remaining bytes", ["bencode::check_structure"]),
+        H("c14_length_bomb_5_digits", "bencode", Q, 900, "<5 symbolic digits>:xxxx", "5 digits", ["bencode::check_structure"]),
+        H("c14_nesting_bomb", "bencode", Q, 900, "runs of 32, 33 and 40 opening markers (concrete executions)", "depth 32 accepted, 33 and 40 rejected", ["bencode::check_structure"]),
+        H("c14_precheck_accepts_valid_messages_native", "bencode", Q, 60,
+          "(native only) pseudo-random ping / announce_peer / response / error messages: reference encoder == real encoder, pre-check accepts, real decoder gives the message back",
+          "sampling - validates that the pre-check loses no valid message and ties the reference encoder to the real codec; does not decide the property",
+          ["bencode::check_structure", "Message::encode", "Message::decode"], role="native-validation"),
+        H("c14_length_bomb_20_digits", "bencode", T, 3600, "<20 symbolic digits>:xxxx", "20 digits: every magnitude up to 10^20 > 2^64", ["bencode::check_structure"]),
+        H("c14_length_bomb_21_digits", "bencode", T, 3600, "<21 symbolic digits>:", "21 digits", ["bencode::check_structure"]),
+        H("c14_precheck_any_12_bytes", "bencode", T, 3000, "every byte string of 12 bytes", "unwind 14", ["bencode::check_structure"]),
+        # piece B: btdht's own decoding code on hostile sizes (shared with C13)
+        H("c13_nodes_v4_lengths", "compact", Q, 600, "53 symbolic bytes; blob lengths 0,1,25,26,27,38,51,52,53", "lengths enumerated", ["compact::nodes_v4::deserialize"]),
+        H("c13_values_element_lengths", "compact", Q, 600, "element lengths 0,5,6,7,17,18,19", "lists <= 2", ["compact::values::deserialize"]),
+    ],
+)
+
+PROPS["C12"] = dict(
+    design_ref="DESIGN.md 4 (C12), 8.5",
+    stubs=[CLOCK, STUB_RS],
+    assumptions=["table built directly: 2 buckets, local id 0..0, 2 arbitrary slots per bucket (coarse ages), one router address"],
+    outside=["'receiving a query never adds its sender' and the routing of responses by action prefix: handler.rs:193-393 (F7)",
+             "node lists longer than 2 names"],
+    harnesses=[
+        H("c12_add_nodes_fresh_and_own_id", "table", Q, 1500, "table standings symbolic; names = (fresh identity, the local id)", "one add_nodes; unwind 21", ["RoutingTable::add_nodes", "RoutingTable::add_node", "Bucket::add_node", "Node::as_questionable"]),
+        H("c12_add_nodes_router_and_existing", "table", Q, 1500, "names = (a router's address with a fresh id, an identity already stored in arbitrary standing)", "one add_nodes", ["RoutingTable::add_nodes"]),
+        H("c12_add_nodes_alias_of_responder", "table", Q, 1500, "names = (a fresh id on the responder's own address, the local id)", "one add_nodes", ["RoutingTable::add_nodes"]),
+        H("c12_add_nodes_duplicate_names", "table", Q, 1500, "names = the same fresh identity twice", "one add_nodes", ["RoutingTable::add_nodes"]),
+        H("c19_from_bytes_length_gate", "transaction", Q, 300, "32 symbolic bytes; every prefix length 0..=32", "lengths enumerated", ["TransactionID::from_bytes"]),
+    ],
+)
+
+# Properties whose harnesses exist but are not (yet) registered: not claimed in MANIFEST.json.
+PENDING = {"C12"}
